@@ -647,12 +647,14 @@ def run(ctx):
     amod = prog.mod('atom')
     sp = amod.func('Atom.set_properties')
     folded = []
+    el_names = {'self.element'} | {norm(s_.value) for s_ in walk_no_nested(sp) if isinstance(s_, ast.Assign)
+                                   and norm(s_.targets[0]) == 'self.element' and isinstance(s_.value, ast.Name)}
     for node in walk_no_nested(sp):
-        if isinstance(node, ast.Assign) and norm(node.targets[0]) == 'self.element' \
+        if isinstance(node, ast.Assign) and norm(node.targets[0]) in el_names \
                 and isinstance(node.value, ast.Constant) and node.value.value == 'H':
             for e, pol in facts_at(node, sp):
                 if not (pol and isinstance(e, ast.Compare) and len(e.ops) == 1
-                        and norm(e.left) == 'self.element'):
+                        and norm(e.left) in el_names):
                     continue
                 cmp_ = e.comparators[0]
                 rhs = [x.value for x in (cmp_.elts if isinstance(cmp_, (ast.Tuple, ast.List, ast.Set))
@@ -660,7 +662,8 @@ def run(ctx):
                 if isinstance(e.ops[0], (ast.Eq, ast.In)) and 'D' in rhs:
                     folded.append(node)
     derive = [n for n in walk_no_nested(sp) if isinstance(n, ast.Assign)
-              and norm(n.targets[0]) == 'self.element']
+              and norm(n.targets[0]) in el_names and not (
+                  norm(n.targets[0]) == 'self.element' and isinstance(n.value, ast.Name))]
     ctx.ob('C17.L3', 'isotope:deuterium-is-hydrogen',
            bool(folded) and all(d.lineno <= folded[-1].lineno for d in derive),
            'Atom.set_properties ends the derivation of the element by turning the deuterium symbol D '
